@@ -84,12 +84,14 @@ def parseInstr (it : String) : Option Instr :=
       | "SS" => some (.storeSector (fld f 0) (fld f 1))
       | "RV" => some .revision
       | "RR" => some (.readRegistry (fld f 0) (fld f 1) (fld f 2) (fld f 3) (fldB f 4) (fldB f 5))
+      | "RN" => some (.readRegistry (fld f 0) (fld f 1) (fld f 2) 1 (fldB f 4) (fldB f 5))   -- legacy encoding: version 1
+      | "UN" => some (.updateRegistry (fld f 0) (fld f 1) (fld f 2) (fld f 3) (fld f 4) (fld f 5) (fld f 6) (fldB f 8) (fldB f 9))
       | "UR" => some (.updateRegistry (fld f 0) (fld f 1) (fld f 2) (fld f 3) (fld f 4) (fld f 5) (fld f 6) (fldB f 8) (fldB f 9))
       | _ => none
 
-def zipCosts : List Instr → List Nat → List Nat → List CInstr
-  | [], _, _ => []
-  | i :: r, cs, ss => { i := i, cost := cs.headD 0, storage := ss.headD 0 } :: zipCosts r cs.tail ss.tail
+def zipCosts : List Instr → List Nat → List Nat → List Nat → List CInstr
+  | [], _, _, _ => []
+  | i :: r, cs, ss, ks => { i := i, cost := cs.headD 0, storage := ss.headD 0, cstorage := ks.headD 0 } :: zipCosts r cs.tail ss.tail ks.tail
 
 def showOpt : Option Nat → String
   | some n => toString n | none => "?"
@@ -348,6 +350,7 @@ def step (fx : Fixes) (d : DState) (l : Line) : DState × List Verdict :=
       let words := ((getStrList l.args "words").bind parseWords).getD []
       let costs := (getNatList l.obs "costs").getD []
       let stor := (getNatList l.obs "stor").getD []
+      let cstor := (getNatList l.obs "cstor").getD stor
       let init := (getNat l.obs "init").getD 0
       let pay : PayMode := match payS with
         | "acct" | "c_ok" => .ok
@@ -358,7 +361,7 @@ def step (fx : Fixes) (d : DState) (l : Line) : DState × List Verdict :=
       let bal0 := match sn? with | some sn => sn.bal0 | none => budget
       let s0 : HostState := { rev := 0, roots := List.range n, balance := if byAcct then bal0 else bal0 + budget }
       let r : Request := { pay, budget, initCost := init, hasContract := getNat l.args "fcid" == some 1, pdLen,
-                           rd := rdWords words pdLen, prog := zipCosts instrs costs stor, fin }
+                           rd := rdWords words pdLen, prog := zipCosts instrs costs stor cstor, fin }
       let (o, s1) := handle fx s0 r
       let d := match o with | .panic .. => { d with modelPanics := d.modelPanics + 1 } | _ => d
       let vs : List Verdict :=
